@@ -49,7 +49,8 @@ let items_of (ops : op list) : (config * item list) option =
       | [] -> Some (List.rev acc)
       | (OWrite b | OPlain b) :: r -> go true (IRec b :: acc) r
       | OTrigger :: r -> go started (if started then ITrig :: acc else acc) r
-      | (OFlush | OTick _ | OSnap | OStop | OShutdown) :: r -> go started acc r
+      (* reopen_output with the file in place changes neither the stream nor the size accounting *)
+      | (OFlush | OTick _ | OSnap | OStop | OShutdown | OReopen) :: r -> go started acc r
       | _ -> None in
     (match go false [] rest with Some l -> Some (c, l) | None -> None)
   | _ -> None
@@ -63,7 +64,7 @@ let titems_of (t0 : int) (ops : op list) : (config * titem list) option =
       | (OWrite b | OPlain b) :: r -> go t true (TRec (z_of_int t, b) :: acc) r
       | OTrigger :: r -> go t started (if started then TTrig (z_of_int t) :: acc else acc) r
       | OTick dt :: r -> go (t + int_of_z dt) started acc r
-      | (OFlush | OSnap | OStop | OShutdown) :: r -> go t started acc r
+      | (OFlush | OSnap | OStop | OShutdown | OReopen) :: r -> go t started acc r
       | _ -> None in
     (match go t0 false [] rest with Some l -> Some (c, l) | None -> None)
   | _ -> None
